@@ -62,6 +62,150 @@ type l4Case struct {
 	ExtraSets int `json:"extraSets"`
 	// FewCols: the result set has fewer columns than the statement has outputs
 	FewCols bool `json:"fewCols"`
+	// Op == "pair": two goroutines run the same uncached Statement on one DB, each with
+	// its own context; A (Run) is held inside the driver's Prepare while B (PairOp, context
+	// Ctx = marker | nil | deadline-live) runs; AEnd = cancel | deadline | release.
+	PairOp string `json:"pairOp,omitempty"`
+	AEnd   string `json:"aEnd,omitempty"`
+}
+
+func genL4Pair(r *rng.R) *l4Case {
+	c := &l4Case{BadRow: -1, FetchErrAt: -1, CancelAt: -1, Op: "pair", Path: "db"}
+	c.HasOutputs = r.Chance(2, 3)
+	c.NRows = r.Intn(3)
+	c.Ctx = r.Pick([]string{"marker", "marker", "nil", "deadline-live"})
+	c.PairOp = r.Pick([]string{"run", "get", "getall"})
+	if !c.HasOutputs {
+		c.PairOp = "run"
+	}
+	c.AEnd = r.Pick([]string{"cancel", "cancel", "deadline", "release"})
+	return c
+}
+
+// pairBlocked is set once B has been seen waiting for A: later pair cases then wait only
+// briefly before ending A, so that a tree on which B always waits does not take minutes.
+var pairBlocked bool
+
+func runL4Pair(c *l4Case) (obs *l4Obs) {
+	obs = &l4Obs{Returns: []string{}, Events: []string{}, EventCtx: []string{}, EventConn: []int{}, Appended: []int64{}, Finish: []string{}}
+	sqldb, st := fakedrv.Open()
+	sqldb.SetMaxOpenConns(4)
+	defer sqldb.Close()
+	db := sqlair.NewDB(sqldb)
+	q := l4NoOutSQL
+	var samples []any
+	if c.HasOutputs {
+		q = l4OutSQL
+		samples = []any{Row{}}
+	}
+	stmt, err := sqlair.Prepare(q, samples...)
+	if err != nil {
+		obs.Panic = "prepare failed: " + err.Error()
+		return obs
+	}
+	gate := fakedrv.NewGate()
+	sc := fakedrv.Script{Columns: []string{"_sqlair_0", "_sqlair_1"}, RowsAffected: 7,
+		Faults: []fakedrv.Fault{{Kind: "prepare", N: 0, Gate: gate}}}
+	for i := 0; i < c.NRows; i++ {
+		sc.Rows = append(sc.Rows, []driver.Value{int64(i + 1), fmt.Sprintf("r%d", i+1)})
+	}
+	st.SetScript(sc)
+	st.Reset()
+	ctxA, cancelA := context.WithCancel(context.WithValue(context.Background(), fakedrv.CtxKey{}, "MARK-A"))
+	defer cancelA()
+	if c.AEnd == "deadline" {
+		// a context carrying a (far) deadline, ended by its cancel function: no timing
+		// dependence, and the driver sees that the context has a deadline
+		ctxA, cancelA = context.WithTimeout(ctxA, time.Hour)
+		defer cancelA()
+	}
+	var ctxB context.Context
+	switch c.Ctx {
+	case "nil":
+	case "deadline-live":
+		var cdl context.CancelFunc
+		ctxB, cdl = context.WithTimeout(context.WithValue(context.Background(), fakedrv.CtxKey{}, "MARK-B"), time.Hour)
+		defer cdl()
+	default:
+		ctxB = context.WithValue(context.Background(), fakedrv.CtxKey{}, "MARK-B")
+	}
+	var retA, retB string
+	doneA, doneB := make(chan struct{}), make(chan struct{})
+	go func() {
+		defer close(doneA)
+		defer func() {
+			if p := recover(); p != nil {
+				retA = "panic: " + fmt.Sprint(p)
+			}
+		}()
+		retA = errText(db.Query(ctxA, stmt).Run())
+	}()
+	select {
+	case <-gate.Entered:
+	case <-time.After(10 * time.Second):
+		obs.Panic = "A never reached the driver's Prepare"
+		return obs
+	}
+	var row Row
+	rows := []Row{}
+	go func() {
+		defer close(doneB)
+		defer func() {
+			if p := recover(); p != nil {
+				retB = "panic: " + fmt.Sprint(p)
+			}
+		}()
+		qr := db.Query(ctxB, stmt)
+		switch c.PairOp {
+		case "get":
+			retB = errText(qr.Get(&row))
+		case "getall":
+			retB = errText(qr.GetAll(&rows))
+		default:
+			retB = errText(qr.Run())
+		}
+	}()
+	// B does not depend on A: it finishes while A is still held.  If it does not, A is ended
+	// anyway and what B then returns is observed.
+	wait := 3 * time.Second
+	if pairBlocked {
+		wait = 30 * time.Millisecond
+	}
+	select {
+	case <-doneB:
+	case <-time.After(wait):
+		pairBlocked = true
+		obs.Extra = map[string]any{"bWaitedForA": true}
+	}
+	switch c.AEnd {
+	case "cancel", "deadline":
+		cancelA()
+	case "release":
+		close(gate.Release)
+	}
+	<-doneA
+	<-doneB
+	obs.Returns = []string{retA, retB}
+	obs.Stored = row.A
+	for _, x := range rows {
+		obs.Appended = append(obs.Appended, x.A)
+	}
+	obs.Prior = true
+	for _, e := range st.Events() {
+		if k, ok := modelledEvents[e.Kind]; ok {
+			obs.Events = append(obs.Events, k)
+			if k == "prepare" || k == "exec" || k == "query" {
+				obs.EventCtx = append(obs.EventCtx, k+"@"+e.Ctx)
+			}
+		}
+	}
+	obs.InUse = sqldb.Stats().InUse
+	obs.OpenRows = st.OpenRows()
+	obs.DoubleClose = st.DoubleClose
+	obs.ClosedUse = st.ClosedStmtUse
+	runtime.KeepAlive(stmt)
+	runtime.KeepAlive(db)
+	return obs
 }
 
 func genL4(r *rng.R) *l4Case {
@@ -547,7 +691,11 @@ func runL4(args []string) {
 	process := func(c *l4Case) {
 		var obs *l4Obs
 		cb, _ := json.Marshal(c)
-		if withWatchdog(15*time.Second, func() { obs = runL4Case(c) }) {
+		run := runL4Case
+		if c.Op == "pair" {
+			run = runL4Pair
+		}
+		if withWatchdog(15*time.Second, func() { obs = run(c) }) {
 			rep.countCase(string(cb), true)
 			f := Finding{Case: map[string]any{"case": c, "replay": string(cb)}, Kind: "crash",
 				Detail: "the operation did not return within 15 s (deadlock / exhausted connection pool: the pool has one connection)"}
@@ -636,6 +784,10 @@ func runL4(args []string) {
 			if hangCount >= maxHangs {
 				rep.Notes = append(rep.Notes, fmt.Sprintf("stopped after %d of %d cases: %d operations hung", i, *n, hangCount))
 				break
+			}
+			if i%25 == 24 {
+				process(genL4Pair(r.Fork()))
+				continue
 			}
 			process(genL4(r.Fork()))
 		}
